@@ -1,4 +1,4 @@
-import TriompheModel.Model.Ops
+import TriompheModel.Proofs.HistInv
 /-!
 # C04 — the reported reference count equals the number of owning handles
 
@@ -32,6 +32,70 @@ theorem C04_clone_same_block (m : Mem) (h : HV) (m' : Mem) (c : HV) (hc : cloneH
     OffsetArc.clone_arc, OffsetArc.transient, Arc.from_raw, Arc.into_raw_offset, Arc.into_raw, ArcUnion.clone,
     ArcBorrow.clone_arc, ArcUnion.borrow, ArcUnion.from_first, ArcUnion.from_second]
   all_goals (obtain ⟨rfl, rfl⟩ := hc; simp <;> split <;> simp)
+
+/-- **the reported count equals the number of owning handles — after every history, through every
+accessor of every slot.**  `loadCount` is what `count()` (Acquire) and `strong_count()` (Relaxed)
+return sequentially, for the `Arc` that a handle of any kind stands for (`asArc`: ThinArc via
+`with_arc`, OffsetArc / ArcBorrow / ArcUnion via `from_raw` of the data pointer). -/
+theorem C04_count_eq_owners (ops : List Op) (i : Nat) (h : HV) (hl : lookup (run ops) i = some h) :
+    loadCount (run ops).mem h.blk = owners (run ops) h.blk ∧
+    Arc.strong_count (run ops).mem (asArc (run ops).mem h) = owners (run ops) h.blk ∧
+    Arc.count (run ops).mem (asArc (run ops).mem h) = owners (run ops) h.blk :=
+  ⟨(count_eq_owners (inv_run ops) hl).1, strong_count_eq_owners (inv_run ops) hl⟩
+
+/-- the same from any state satisfying the invariant, continued by any further ops -/
+theorem C04_count_eq_owners_from (s : State) (hi : Inv s) (ops : List Op) (i : Nat) (h : HV)
+    (hl : lookup (ops.foldl (fun s o => (step s o).1) s) i = some h) :
+    loadCount (ops.foldl (fun s o => (step s o).1) s).mem h.blk = owners (ops.foldl (fun s o => (step s o).1) s) h.blk :=
+  (count_eq_owners (inv_run_from s hi ops) hl).1
+
+/-- **inside a borrow callback**: whenever the invariant holds and slot `src` lends the transient
+handle `t` (`Lends`), the count the callback reads through `t` is the number of owners … -/
+theorem C04_inside_callbacks_reads_owners (s : State) (src : Nat) (t : HV) (hp : CbP src s t) :
+    loadCount s.mem t.blk = owners s t.blk := by
+  obtain ⟨hi, hs, hl, hb, _⟩ := hp
+  rw [← hb]
+  exact hi.loadCount_eq hl
+
+/-- … and that situation (`CbP`: invariant + lending) is maintained by every action of every
+callback script, whatever the API (`with_arc`, `with_raw_offset_arc`, `with_arc_mut` incl. replacing
+the Arc), also when the script ends in a panic -/
+theorem C04_inside_callbacks_maintained (api : CbApi) (src : Nat) (script : List CbAct) (s : State) (t : HV)
+    (acc : String) (hp : CbP src s t) : ∃ t', CbP src (runCb api src script s t acc).1 t' :=
+  runCb_ind api src (CbP src) (fun _ _ _ _ _ h hk hc => h.cloneTo hk hc api) (fun _ _ _ h hk _ => h.cloneArc hk)
+    (fun _ _ v h => h.write v) (fun _ _ _ _ h hne hk _ => h.repl hne hk) script s t acc hp
+
+/-- the `cnt` action prints exactly that count -/
+theorem C04_cb_cnt_prints_count (api : CbApi) (src : Nat) (rest : List CbAct) (s : State) (t : HV) (acc : String) :
+    runCb api src (.cnt :: rest) s t acc = runCb api src rest s t (acc ++ s!"cnt={loadCount s.mem t.blk};") := by
+  simp [runCb]
+
+/-- **a release lowers the number of owners of exactly that block by one** -/
+theorem C04_release_minus_one (s : State) (hi : Inv s) (src : Nat) (h : HV) (m : Mem)
+    (hs : lookup s src = some h) (hd : dropHandle s.mem h = some m) :
+    (step s (.drop src)).1 = s.del m src ∧
+    ∀ b, owners (s.del m src) b + (if h.blk = b then 1 else 0) = owners s b := by
+  have e : (step s (.drop src)).1 = s.del m src := by simp [step, hs, hd]
+  refine ⟨e, ?_⟩
+  intro b
+  exact ownersL_del hi.keys (lookup_mem hs) b
+
+/-- **conversions, gates and borrows are neutral**: an in-place conversion (into_raw, from_raw,
+into/from_raw_offset, from_thin, thin into/from raw, union constructors, header erasure, shareable,
+assume_init, cast to dyn) changes no count word and no number of owners -/
+theorem C04_conv_neutral (s : State) (src : Nat) (c : Conv) (h h' : HV) (hs : lookup s src = some h)
+    (hc : runConv s.mem h c = some h') (hi : Inv s) :
+    (step s (.conv src c)).1.mem = s.mem ∧ ∀ b, owners (step s (.conv src c)).1 b = owners s b := by
+  have e : (step s (.conv src c)).1 = s.set s.mem src h' := by simp [step, hs, hc]
+  rw [e]
+  refine ⟨rfl, fun b => ?_⟩
+  have := ownersL_set (h' := h') hi.keys (lookup_mem hs) b
+  rw [(runConv_spec hc).1] at this
+  show ownersL (setL s.slots src h') b = ownersL s.slots b
+  omega
+
+theorem C04_is_unique_neutral (s : State) (src : Nat) : (step s (.isUnique src)).1 = s := by
+  simp only [step]; split <;> (try split) <;> rfl
 
 end C04
 end M1
